@@ -1,20 +1,38 @@
 #!/bin/bash
 # usage: try-refactor.sh <diff>...   For each behaviour-preserving patch: scratch worktree of /repo HEAD, apply,
 # build + unedited suite, then every check (no canaries).  Any line printed after "checks:" is an alarm on code
-# for which the properties still hold, i.e. a false alarm of the machinery.
+# for which the properties still hold, i.e. a false alarm of the machinery.  JOBS patches are tried at a time
+# (default 4); MQVERIFY names the analyser binary (default /verif/bin/mqverify).
 export GOFLAGS=-mod=mod GOPROXY=off GOSUMDB=off GOTOOLCHAIN=local GOWORK=off
-w=/tmp/refacverify; out=/tmp/refacverify-out
+bin=${MQVERIFY:-/verif/bin/mqverify}
+jobs=${JOBS:-4}
+one() {
+  d=$1; k=$2
+  w=/tmp/refacverify-$$-$k; out=/tmp/refacverify-out-$$-$k
+  ( flock 9; git -C /repo worktree remove --force $w 2>/dev/null; rm -rf $w $out; git -C /repo worktree add -q --detach $w HEAD ) 9>/tmp/refacverify.lock || exit 2
+  {
+    echo "=== $d"
+    if (cd $w && git apply "$d"); then
+      suite=$(cd $w && go build ./... 2>&1 && go test -vet=off -count=1 ./... 2>&1 | tr '\n' ' ')
+      echo "suite: $suite"
+      mkdir -p $out
+      echo "checks:"
+      $bin -property all -repo $w -verif /verif -outdir $out -nocanary > $out/log.txt 2>&1; rc=$?
+      grep -E "^VIOLATION|^  (VIOLATED|UNDECIDED)" $out/log.txt | cut -c1-300 | awk '/^VIOLATION/ {print; n=0; next} { n++; if (n<=3) print; else if (n==4) print "  ..." }'
+      if [ $rc -gt 1 ] || [ $(grep -c "^C[0-9][0-9] " $out/log.txt) -ne 19 ]; then echo "VIOLATION checker did not complete (exit $rc): $(grep -m1 -E "panic|fatal error" $out/log.txt)"; fi
+    else
+      echo "PATCH DOES NOT APPLY"
+    fi
+  } > /tmp/refacverify-res-$$-$k.txt 2>&1
+  ( flock 9; git -C /repo worktree remove --force $w 2>/dev/null; rm -rf $w $out ) 9>/tmp/refacverify.lock
+}
+k=0; running=0
 for d in "$@"; do
-  git -C /repo worktree remove --force $w 2>/dev/null; rm -rf $w $out
-  git -C /repo worktree add -q --detach $w HEAD || exit 2
-  echo "=== $d"
-  (cd $w && git apply "$d") || { echo "PATCH DOES NOT APPLY"; continue; }
-  suite=$(cd $w && go build ./... 2>&1 && go test -vet=off -count=1 ./... 2>&1 | tr '\n' ' ')
-  echo "suite: $suite"
-  mkdir -p $out
-  echo "checks:"
-  /verif/bin/mqverify -property all -repo $w -verif /verif -outdir $out -nocanary > $out/log.txt 2>&1; rc=$?
-  grep -E "^VIOLATION|^  (VIOLATED|UNDECIDED)" $out/log.txt | cut -c1-300 | awk '/^VIOLATION/ {print; n=0; next} { n++; if (n<=3) print; else if (n==4) print "  ..." }'
-  if [ $rc -gt 1 ] || [ $(grep -c "^C[0-9][0-9] " $out/log.txt) -ne 19 ]; then echo "VIOLATION checker did not complete (exit $rc): $(grep -m1 -E "panic|fatal error" $out/log.txt)"; fi
+  k=$((k+1))
+  one "$d" $k &
+  running=$((running+1))
+  if [ $running -ge $jobs ]; then wait -n; running=$((running-1)); fi
 done
-git -C /repo worktree remove --force $w 2>/dev/null; rm -rf $w $out
+wait
+for i in $(seq 1 $k); do cat /tmp/refacverify-res-$$-$i.txt; rm -f /tmp/refacverify-res-$$-$i.txt; done
+git -C /repo worktree prune
